@@ -130,3 +130,51 @@ Fixpoint rll_close (tol : R) (a b : list (list R)) : Prop :=
   | _, _ => False
   end.
 Definition r_close (tol a b : R) : Prop := Rabs (a - b) <= tol * (1 + Rabs b).
+
+(* ---------------------------------------------------------------------------------------------
+   DistributionGallery (cuqi/distribution/_custom.py): the six hand-derived two-dimensional log-densities and the
+   two entries of the gradient each of them returns.  Constants are parameters (the code fixes them). *)
+Definition rad (x1 x2 : R) : R := sqrt (x1 ^ 2 + x2 ^ 2).
+(* CalSom91 *)
+Definition calsom_logd (sig delta x1 x2 : R) : R :=
+  - / (2 * sig ^ 2) * (rad x1 x2 - 1) ^ 2 - / (2 * delta ^ 2) * (x2 - 1) ^ 2.
+Definition calsom_g1 (sig delta x1 x2 : R) : R := - (x1 * (rad x1 x2 - 1)) / (sig ^ 2 * rad x1 x2).
+Definition calsom_g2 (sig delta x1 x2 : R) : R := - (x2 * (rad x1 x2 - 1)) / (sig ^ 2 * rad x1 x2) - (x2 - 1) / delta ^ 2.
+(* donut *)
+Definition donut_logd (rd s2 x1 x2 : R) : R := - (rad x1 x2 - rd) ^ 2 / s2.
+Definition donut_g1 (rd s2 x1 x2 : R) : R := x1 * (rd / rad x1 x2 - 1) * 2 / s2.
+Definition donut_g2 (rd s2 x1 x2 : R) : R := x2 * (rd / rad x1 x2 - 1) * 2 / s2.
+(* funnel: f(x, m, s) = -1/2 ln(2 pi) - ln s - 1/2 ((x - m)/s)^2, s0 = exp(x2/2) *)
+Definition fun_f (x m s : R) : R := - / 2 * ln (2 * PI) - ln s - / 2 * ((x - m) / s) ^ 2.
+Definition funnel_logd (m0 m1 s1 x1 x2 : R) : R := fun_f x1 m0 (exp (x2 / 2)) + fun_f x2 m1 s1.
+Definition funnel_g1 (m0 m1 s1 x1 x2 : R) : R := - (x1 - m0) / (exp (x2 / 2)) ^ 2.
+Definition funnel_g2 (m0 m1 s1 x1 x2 : R) : R :=
+  (- 1 / exp (x2 / 2) + (x1 - m0) ^ 2 / (exp (x2 / 2)) ^ 3) * / 2 * exp (x2 / 2) + - (x2 - m1) / s1 ^ 2.
+(* a two-dimensional Gaussian kernel with symmetric precision (p11 p12; p12 p22) and mean (mu1, mu2), and its gradient *)
+Definition g2_logd (p11 p12 p22 mu1 mu2 y1 y2 : R) : R :=
+  - / 2 * (p11 * (y1 - mu1) ^ 2 + 2 * p12 * (y1 - mu1) * (y2 - mu2) + p22 * (y2 - mu2) ^ 2).
+Definition g2_d1 (p11 p12 p22 mu1 mu2 y1 y2 : R) : R := - (p11 * (y1 - mu1) + p12 * (y2 - mu2)).
+Definition g2_d2 (p11 p12 p22 mu1 mu2 y1 y2 : R) : R := - (p12 * (y1 - mu1) + p22 * (y2 - mu2)).
+(* banana: y = (x1 / a, x2 a + a b (x1^2 + a^2)) *)
+Definition banana_y2 (a b x1 x2 : R) : R := x2 * a + a * b * (x1 ^ 2 + a ^ 2).
+Definition banana_logd (p11 p12 p22 mu1 mu2 a b x1 x2 : R) : R := g2_logd p11 p12 p22 mu1 mu2 (x1 / a) (banana_y2 a b x1 x2).
+Definition banana_g1 (p11 p12 p22 mu1 mu2 a b x1 x2 : R) : R :=
+  g2_d1 p11 p12 p22 mu1 mu2 (x1 / a) (banana_y2 a b x1 x2) / a + g2_d2 p11 p12 p22 mu1 mu2 (x1 / a) (banana_y2 a b x1 x2) * a * b * 2 * x1.
+Definition banana_g2 (p11 p12 p22 mu1 mu2 a b x1 x2 : R) : R := g2_d2 p11 p12 p22 mu1 mu2 (x1 / a) (banana_y2 a b x1 x2) * a.
+(* squiggle: y = (x1, x2 + sin(5 x1)) *)
+Definition squiggle_logd (p11 p12 p22 mu1 mu2 x1 x2 : R) : R := g2_logd p11 p12 p22 mu1 mu2 x1 (x2 + sin (5 * x1)).
+Definition squiggle_g1 (p11 p12 p22 mu1 mu2 x1 x2 : R) : R :=
+  g2_d1 p11 p12 p22 mu1 mu2 x1 (x2 + sin (5 * x1)) + g2_d2 p11 p12 p22 mu1 mu2 x1 (x2 + sin (5 * x1)) * 5 * cos (5 * x1).
+Definition squiggle_g2 (p11 p12 p22 mu1 mu2 x1 x2 : R) : R := g2_d2 p11 p12 p22 mu1 mu2 x1 (x2 + sin (5 * x1)).
+(* mixture of three isotropic Gaussians: component (a, b, s) has pdf 1/(2 pi s) exp(-((x1-a)^2 + (x2-b)^2) / (2 s)) *)
+Definition iso_pdf (c : R * R * R) (x1 x2 : R) : R :=
+  let '(a, b, s) := c in / (2 * PI * s) * exp (- ((x1 - a) ^ 2 + (x2 - b) ^ 2) / (2 * s)).
+Definition mixture_logd (c1 c2 c3 : R * R * R) (x1 x2 : R) : R := ln (iso_pdf c1 x1 x2 + iso_pdf c2 x1 x2 + iso_pdf c3 x1 x2).
+Definition iso_d1 (c : R * R * R) (x1 x2 : R) : R := let '(a, b, s) := c in - (x1 - a) / s.
+Definition iso_d2 (c : R * R * R) (x1 x2 : R) : R := let '(a, b, s) := c in - (x2 - b) / s.
+Definition mixture_g1 (c1 c2 c3 : R * R * R) (x1 x2 : R) : R :=
+  (iso_pdf c1 x1 x2 * iso_d1 c1 x1 x2 + iso_pdf c2 x1 x2 * iso_d1 c2 x1 x2 + iso_pdf c3 x1 x2 * iso_d1 c3 x1 x2)
+  * / (iso_pdf c1 x1 x2 + iso_pdf c2 x1 x2 + iso_pdf c3 x1 x2).
+Definition mixture_g2 (c1 c2 c3 : R * R * R) (x1 x2 : R) : R :=
+  (iso_pdf c1 x1 x2 * iso_d2 c1 x1 x2 + iso_pdf c2 x1 x2 * iso_d2 c2 x1 x2 + iso_pdf c3 x1 x2 * iso_d2 c3 x1 x2)
+  * / (iso_pdf c1 x1 x2 + iso_pdf c2 x1 x2 + iso_pdf c3 x1 x2).
